@@ -24,6 +24,7 @@ RULE = (
     "default output; the default type never raises UndefinedError; probes that output / iterate / compare / filter a certainly missing name "
     "raise UndefinedError under StrictUndefined. Non-trivial = at least one undefined value was created during the default render "
     "(counted by the hook), distinct by (source, data)."
+    " Rounds 5-6 added enumerated families: pairs of missing paths in non-printing positions; missing values made by the engine (parentloop of an outermost loop, helpers' missing properties)."
 )
 REQUIRED = [
     ("liquid/undefined.py", "StrictUndefined.__str__"),
